@@ -59,6 +59,7 @@ func makeDeadline(d time.Duration) fasttime {
 			fast.current.write(durationToTicks(time.Since(fast.start)))
 			// recalculate our end value
 			end = fast.current.read() + durationToTicks(d+clockPeriod)
+			verifPoint("clockRefresh", nil, int(fast.current.read()), int(end))
 		}
 		fast.mu.Unlock()
 		extendClock(end)
@@ -84,8 +85,10 @@ func extendClock(end fasttime) {
 	// Start clock if necessary
 	if !fast.running {
 		fast.running = true
+		verifPoint("clockStart", nil, int(fast.current.read()), int(fast.clockEnd.read()))
 		go runClock()
 	}
+	verifPoint("clockExtend", nil, int(end), int(fast.clockEnd.read()))
 }
 
 // stop the timeout clock in the background
@@ -95,6 +98,7 @@ func stopClock() {
 	if fast.running {
 		fast.clockEnd.write(fasttime(0))
 	}
+	verifPoint("clockStop", nil, int(fast.current.read()), int(fast.clockEnd.read()))
 	fast.mu.Unlock()
 
 	// pause until not running
@@ -131,8 +135,10 @@ func runClock() {
 
 		newTime := durationToTicks(time.Since(fast.start))
 		fast.current.write(newTime)
+		verifPoint("clockTick", nil, int(newTime), int(fast.clockEnd.read()))
 	}
 	fast.running = false
+	verifPoint("clockExit", nil, int(fast.current.read()), int(fast.clockEnd.read()))
 }
 
 type atomicTime struct{ v int64 } // Should change to atomic.Int64 when we can use go 1.19
